@@ -128,6 +128,66 @@ def deg_check(recipe, obj, lts, ctxs, envs, part, U):
     return None
 
 
+def tuple_derivative_pass(run, cellname, gdim):
+    """Gateaux derivatives with respect to a TUPLE of coefficients of unequal degrees: UFL creates the direction
+    Argument itself, on an internal mixed element.  All ordered pairs of the stated coefficients x a catalogue of
+    integrands; estimate by compute_form_data (derivatives are expanded first), truth from Sem of the derivative."""
+    from ufl.algorithms import compute_form_data
+
+    U = universe(cellname, gdim)
+    env = EV.cell_envs(cellname, gdim, n=1)[0]
+    m = t_mesh = U.t["p1"].ufl_domain()
+    t = dict(U.t)
+    # unequal degrees with a gap of two, so that no other term of the derivative reaches the degree of the high one
+    t["p3"] = ufl.Coefficient(ufl.FunctionSpace(m, E.P(cellname, 3)))
+    t["v3"] = ufl.Coefficient(ufl.FunctionSpace(m, E.P(cellname, 3, (2,))))
+    names = ["p1", "p3", "v3", "p2"]
+    cat = {
+        "a*b": lambda a, b: ufl.inner(a, a) * ufl.inner(b, b),
+        "grad(a)^2+b^2": lambda a, b: ufl.inner(ufl.grad(a), ufl.grad(a)) + ufl.inner(b, b),
+        "a^2+grad(b)^2": lambda a, b: ufl.inner(a, a) + ufl.inner(ufl.grad(b), ufl.grad(b)),
+        "a^3+b": lambda a, b: ufl.inner(a, a) ** 2 + ufl.inner(b, b),
+        "x*a^2+b^2": lambda a, b: t["x"][0] * ufl.inner(a, a) + ufl.inner(b, b),
+    }
+    part = Part()
+    for na in names:
+        for nb in names:
+            if na == nb:
+                continue
+            for fname, mk in cat.items():
+                key = f"derivative({fname}, ({na},{nb}))"
+                part.inc("transitions")
+                try:
+                    D = ufl.derivative(mk(t[na], t[nb]), (t[na], t[nb]))
+                    fd = compute_form_data(D * ufl.dx, do_estimate_degrees=True)
+                    ds = [itg.metadata()["estimated_polynomial_degree"] for idata in fd.integral_data for itg in idata.integrals]
+                    est = max(ds)
+                except BaseException as e:  # noqa: BLE001
+                    if isinstance(e, (KeyboardInterrupt, SystemExit, MemoryError)):
+                        raise
+                    part.error("tuple_derivative:" + type(e).__name__)
+                    continue
+                try:
+                    td = true_degree(D, env, est + 3)
+                except Undefined:
+                    part.count("model_undefined")
+                    continue
+                finally:
+                    set_order(1)
+                part.inc("states")
+                part.inc("validated")
+                part.inc("nontrivial")
+                part.outcome(("tuple-derivative", min(td, 12), est))
+                if td > est:
+                    part.violation(
+                        f"{PID}:tuple-derivative:{cellname}{gdim}d:{key}",
+                        f"compute_form_data estimates degree {est} for {key} but the true polynomial degree is {'>= ' if td >= est + 3 else ''}{td}",
+                        {"tuple_derivative": [fname, na, nb], "mesh": [cellname, gdim], "estimate": est, "true_degree": td},
+                    )
+    run.merge(part.dict())
+    run.bounds[f"{cellname}{gdim}d:tuple_derivatives"] = len(names) * (len(names) - 1) * len(cat)
+
+
 def main(argv):
     run = Run(PID, argv)
     quick = not run.thorough()
@@ -137,6 +197,7 @@ def main(argv):
     meshes = [("triangle", 2), ("triangle", 3)] + ([] if quick else [("tetrahedron", 3)])
     for cellname, gdim in meshes:
         explore(run, cellname, gdim, quick)
+        tuple_derivative_pass(run, cellname, gdim)
     run.bounds.update(
         meshes=[f"{c}{g}d" for c, g in meshes],
         grammar="level 1: every fixed component of every form argument, pool-index components, grad/div/dx, squares and cubes; level 2: all products and sums of "
@@ -234,6 +295,10 @@ def replay(run):
     def tup(x):
         return tuple(tup(y) for y in x) if isinstance(x, list) else x
 
+    if "tuple_derivative" in rp["witness"]:
+        cellname, gdim = rp["witness"]["mesh"]
+        tuple_derivative_pass(run, cellname, gdim)  # the whole (small) pass of that mesh
+        return run.finish()
     recipe = tup(rp["witness"]["recipe"])
     part = Part()
     name = rp["witness"]["env"]["name"]
